@@ -100,6 +100,15 @@ def programs_from_codec_rows(rows, chunk=150, setprop=True, read_back=True):
                     if name in GOLOMB:
                         push({'op': 'readtok', 't': 's', 'sa': [name], 'ia': [NONE_I]})
                         push({'op': 'peektok', 't': 's', 'sa': [name], 'ia': [NONE_I]})
+                        tk1 = [{'nm': name, 'n': NONE_I, 'hv': 0, 'val': [0]}]
+                        m2 = mk('s', 'BitStream' if (k + p) % 2 else 'ConstBitStream', bits, 'bin', p)
+                        m2['drop'] = ['*']
+                        push(m2)
+                        push({'op': 'peeklist', 't': 's', 'tk': tk1, 'ia': [0]})
+                        push({'op': 'readlist', 't': 's', 'tk': tk1 + tk1, 'ia': [p % 2]})
+                        if p == 0:
+                            push({'op': 'unpack', 't': 's', 'tk': tk1, 'ia': [0]})
+                            push({'op': 'unpack', 't': 's', 'tk': tk1 + [{'nm': 'bits', 'n': NONE_I, 'hv': 0, 'val': [0]}], 'ia': [0]})
                     else:
                         for nn in (0, 1, 2, len(bits) - p, len(bits) - p + 1, NONE_I):
                             if name == 'hex':
@@ -265,4 +274,40 @@ def golomb_stream_program(rng):
         for name in names[:3]:
             calls.append({'op': 'readtok', 't': 'tr', 'sa': [name], 'ia': [NONE_I]})
         calls.append({'op': 'interp', 't': 'tr', 'sa': [rng.choice(GOLOMB), 'prop', '0'], 'ia': [NONE_I]})
+    return {'calls': calls}
+
+
+def golomb_history_program(rng):
+    """mutable objects built straight from a code, mutated, and the same value encoded again (C10 / C04 / C09)"""
+    calls = []
+    name = rng.choice(GOLOMB)
+    v = rng.choice([0, 1, 2, 3, 5, 8, 100])
+    if name in ('se', 'sie') and rng.random() < 0.5:
+        v = -v
+    val = enc_int(v)
+    cls = rng.choice(MUTABLE)
+    calls.append({'op': 'newval', 'rid': 'm', 'sa': [cls, name, rng.choice(['kw_len', 'prop']), '0'], 'ia': [NONE_I], 'va': [val]})
+    calls.append(_d.mutator_call(rng, [0, 1, 0], cls, 'm'))
+    calls.append({'op': 'append', 't': 'm', 'xs': [_d.lit('bin', [1, 0, 1])]})
+    for route in rng.sample(['kw_len', 'token', 'pack', 'dtype_build', 'prop'], 3):
+        c2 = rng.choice(MUTABLE if route == 'prop' else CLASSES)
+        calls.append({'op': 'newval', 'rid': 'x', 'sa': [c2, name, route, '0'], 'ia': [NONE_I], 'va': [val]})
+        calls.append({'op': 'interp', 't': 'x', 'sa': [name, 'prop', '0'], 'ia': [NONE_I]})
+    return {'calls': calls}
+
+
+def equal_but_distinct_program(rng):
+    """values that compare equal in Python but must encode differently or identically: +0.0 / -0.0, True / 1"""
+    calls = []
+    names = FLOAT_NAMES + BFLOAT_NAMES
+    for _ in range(rng.randint(2, 4)):
+        name = rng.choice(names)
+        n = 16 if name in BFLOAT_NAMES else rng.choice([16, 32, 64])
+        first = rng.choice([0.0, -0.0])
+        for f in (first, -first, first):
+            routes = new_routes('float' if name == 'f' else name, n, enc_float(f))
+            route = rng.choice(routes)
+            cls = rng.choice(MUTABLE if route in ('prop', 'prop_sized') else CLASSES)
+            calls.append({'op': 'newval', 'rid': 'z', 'sa': [cls, name, route, '0'], 'ia': [n], 'va': [enc_float(f)]})
+            calls.append({'op': 'interp', 't': 'z', 'sa': [name, 'prop', '0'], 'ia': [NONE_I]})
     return {'calls': calls}
